@@ -526,7 +526,11 @@ func runC35(r *core.Run, faulty bool) {
 		start := time.Now()
 		p := newPKI(r)
 		g := newGov(r, p)
-		root, err := os.MkdirTemp("", "trustsim-c35-")
+		tmp := "" // a memory-backed file system when there is one: the database file and the TRC directories are real files
+		if st, err := os.Stat("/dev/shm"); err == nil && st.IsDir() {
+			tmp = "/dev/shm"
+		}
+		root, err := os.MkdirTemp(tmp, "trustsim-c35-")
 		if err != nil {
 			infra("tempdir: %v", err)
 		}
@@ -562,7 +566,7 @@ func runC35(r *core.Run, faulty bool) {
 
 		events := r.Range("events", 4, 16)
 		for e := 0; e < events && !r.Failed(); e++ {
-			switch r.Choice("event", 7) {
+			switch r.Choice("event", 9) {
 			case 2:
 				d := time.Duration(1+r.Choice("sleep.hours", 24*25)) * time.Hour
 				time.Sleep(d)
@@ -579,6 +583,16 @@ func runC35(r *core.Run, faulty bool) {
 			case 4:
 				c := s.chains[r.Choice("load.chain", len(s.chains))]
 				a := r.Choice("load.from", len(c.trcs))
+				if r.Choice("load.gap", 3) != 2 {
+					// usually the files continue what the AS already holds
+					known := -1
+					for k, t := range c.trcs {
+						if _, ok := s.model[t.idString()]; ok {
+							known = k
+						}
+					}
+					a = min(a, known+1)
+				}
 				b := r.Range("load.to", a, len(c.trcs)-1)
 				s.load(fmt.Sprintf("ISD%d-B%d[%d..%d]", c.isd, c.base, c.base+a, c.base+b), c.trcs[a:b+1], true)
 			default:
